@@ -96,4 +96,5 @@ class Contract:
         requires = list(self._filter({i: r for i, r in enumerate(requires)}, pid).values())
         ensures = self._filter(ensures, pid)
         raises = self._filter(raises, pid)
+        may_raise = self._filter(may_raise, pid)
         return params, requires, ensures, raises, may_raise, returns
